@@ -36,6 +36,8 @@ def main() -> int:
             from vf.mon import containers
 
             containers.report(ctx)
+            # which library modules this interpreter ended up importing (an application that reads one meter imports one decoder)
+            ctx.seen("library_modules_imported_by_a_worker", ",".join(sorted(m[4:] for m in sys.modules if m.startswith("han."))))
     except env.Inconclusive as ex:
         ctx.note_inconclusive(str(ex))
     except BaseException:  # harness failure is never a verdict on the repository
